@@ -482,15 +482,17 @@ Theorem C07_merge_tie_takes_other : forall ltb a r1 b r2, ltb a b = false ->
   pmerge ltb (a :: r1) (b :: r2) = b :: pmerge ltb (a :: r1) r2.
 Proof. exact merge_tie_takes_other. Qed.
 
-(* list.eval returns the list unchanged; list.replaceList(f) is f applied to the list *)
+(* list.eval returns the list unchanged; list.replaceList(f) is f applied to the list, map.replaceMap(f) is f applied to the map *)
 Theorem C07_eval_replaceList :
   (* list_eval_spec *)
   (forall l, run_list (of_list l) M_eval [] = Ok (PV (VList l))) /\
   (* replaceList_spec *)
   (forall l body,
      run_list (of_list l) M_replaceList [AF 1 body] = okV (ceval [VList l] body) /\
-     bind (run_list (of_list l) M_replaceList [AF 1 body]) force = spec_list l M_replaceList [AF 1 body]).
-Proof. exact (conj list_eval_spec replaceList_spec). Qed.
+     bind (run_list (of_list l) M_replaceList [AF 1 body]) force = spec_list l M_replaceList [AF 1 body]) /\
+  (* replaceMap_spec *)
+  (forall e body, run_map e M_replaceMap [AF 1 body] = okV (ceval [VMap e] body)).
+Proof. exact (conj list_eval_spec (conj replaceList_spec replaceMap_spec)). Qed.
 
 (* non-vacuity: a pipeline with a failing callback behind a truncating stage, and the repaired corners *)
 Example C07_nonvacuous_lazy :
